@@ -499,3 +499,324 @@ func init() {
 			c.Check(true, "equality-tests", "", fmt.Sprintf("%d (in)equality tests on sequence numbers examined", n), "")
 		}})
 }
+
+func init() {
+	register(&Rule{ID: "C11.R7", Props: []string{"C11", "C13", "C17", "C18", "C19", "C10"}, Engine: "E2-exhaustive",
+		Title:   "every option reaches the association: Config.applyClient and Config.applyServer (the legacy Config acting as an option) copy every field of Config into the effective configuration (sibling agreement; reviewed role-specific exceptions), and every field of Config is read by the construction code — an option that is dropped on the way silently leaves a limit (message size, reassembly entries, RTO ceiling, zero-checksum, interleaving, scheduler weights …) at its default for that role",
+		MinInst: 30,
+		Run: func(c *RuleCtx) {
+			cfgObj := c.P.Types.Scope().Lookup("Config")
+			if cfgObj == nil {
+				c.Unresolved("type Config")
+				return
+			}
+			st, ok := cfgObj.Type().Underlying().(*types.Struct)
+			if !ok {
+				c.Unresolved("type Config struct")
+				return
+			}
+			// role-specific fields, reviewed: which role does not take the option over, and why
+			skip := map[string]map[string]string{
+				"Config.applyServer": {"snapConfig": "out-of-band (SNAP) tokens are a client-side construction: Server() has no SNAP path"},
+			}
+			// options that only label diagnostics: no property among C01–C20 depends on them
+			diag := map[string]bool{"Name": true, "LoggerFactory": true}
+			for _, fnName := range []string{"Config.applyClient", "Config.applyServer"} {
+				fn := c.Fn(fnName)
+				written := map[string]bool{}
+				for _, g := range c.P.Region(fn) {
+					forEachInstr(g, func(in ssa.Instruction) {
+						if s, ok := in.(*ssa.Store); ok {
+							if fa, ok := s.Addr.(*ssa.FieldAddr); ok && isConfigType(fa.X.Type()) {
+								if f := fieldOf(fa.X.Type(), fa.Field); f != nil {
+									src := map[string]bool{}
+									cfgSources(s.Val, 0, src, map[ssa.Value]bool{})
+									if _, isK := s.Val.(*ssa.Const); isK || len(src) > 0 || valueFromCall(s.Val) {
+										written[f.Name()] = true
+									}
+								}
+							}
+						}
+					})
+				}
+				for i := 0; i < st.NumFields(); i++ {
+					f := st.Field(i).Name()
+					if diag[f] {
+						continue
+					}
+					if why, isSkip := skip[fnName][f]; isSkip {
+						c.Ok("cfg-copied:"+fnName+"."+f, c.P.Pos(fn.Pos()), "not taken over by this role (reviewed: "+why+")")
+						continue
+					}
+					c.Check(written[f], "cfg-copied:"+fnName+"."+f, c.P.Pos(fn.Pos()), "option "+f+" is taken over", "option Config."+f+" is not copied by "+fnName+": an association configured through a Config value silently runs with the default")
+				}
+			}
+			// every option is consumed somewhere outside the two copy functions
+			copyFns := fnSet(c.fns("Config.applyClient", "Config.applyServer"))
+			read := map[string]bool{}
+			for _, fn := range c.P.Funcs {
+				if c.P.OwnedBy(fn, copyFns) {
+					continue
+				}
+				forEachInstr(fn, func(in ssa.Instruction) {
+					switch x := in.(type) {
+					case *ssa.FieldAddr:
+						if isConfigType(x.X.Type()) {
+							for _, r := range *x.Referrers() {
+								if u, ok := r.(*ssa.UnOp); ok && u.Op == token.MUL {
+									read[fieldOf(x.X.Type(), x.Field).Name()] = true
+								}
+								if _, ok := r.(*ssa.FieldAddr); ok {
+									read[fieldOf(x.X.Type(), x.Field).Name()] = true
+								}
+							}
+						}
+					case *ssa.Field:
+						if isConfigType(x.X.Type()) {
+							read[fieldOf(x.X.Type(), x.Field).Name()] = true
+						}
+					}
+				})
+			}
+			for i := 0; i < st.NumFields(); i++ {
+				f := st.Field(i).Name()
+				if diag[f] {
+					continue
+				}
+				c.Check(read[f], "cfg-consumed:"+f, "", "option "+f+" is read by the construction code", "option Config."+f+" is never read outside the copy functions: setting it has no effect")
+			}
+		}})
+}
+
+func valueFromCall(v ssa.Value) bool {
+	_, ok := unconv(v).(*ssa.Call)
+	return ok
+}
+
+// nilReturns: indices of pointer results of fn that are the nil constant on some return,
+// and for each, the index of a bool result that is constant false on all of those returns (-1 if none).
+func nilReturns(fn *ssa.Function) map[int]int {
+	out, _ := nilReturnsE(fn)
+	return out
+}
+
+// nilReturnsE additionally gives, per nil-able result, the index of an error result
+// that is non-nil on every return where the pointer is nil (-1 if none).
+func nilReturnsE(fn *ssa.Function) (map[int]int, map[int]int) {
+	out := map[int]int{}
+	errs := map[int]int{}
+	if fn == nil || fn.Blocks == nil {
+		return out, errs
+	}
+	rets := allReturns(fn)
+	nres := fn.Signature.Results().Len()
+	for i := 0; i < nres; i++ {
+		if _, isPtr := fn.Signature.Results().At(i).Type().Underlying().(*types.Pointer); !isPtr {
+			continue
+		}
+		var nilRets []*ssa.Return
+		for _, r := range rets {
+			rs := retResults(r)
+			if i < len(rs) && isNilConst(rs[i]) {
+				nilRets = append(nilRets, r)
+			}
+		}
+		if len(nilRets) == 0 {
+			continue
+		}
+		okIdx := -1
+		for j := 0; j < nres; j++ {
+			if bt, isB := fn.Signature.Results().At(j).Type().Underlying().(*types.Basic); !isB || bt.Kind() != types.Bool {
+				continue
+			}
+			all := true
+			for _, r := range nilRets {
+				rs := retResults(r)
+				if j >= len(rs) || !IsConstBool(false)(rs[j]) {
+					all = false
+				}
+			}
+			if all {
+				okIdx = j
+			}
+		}
+		out[i] = okIdx
+		errs[i] = -1
+		for j := 0; j < nres; j++ {
+			if fn.Signature.Results().At(j).Type().String() != "error" {
+				continue
+			}
+			all := true
+			for _, r := range nilRets {
+				rs := retResults(r)
+				if j >= len(rs) || isNilConst(rs[j]) {
+					all = false
+				}
+				if j < len(rs) {
+					if ph, isPhi := rs[j].(*ssa.Phi); isPhi {
+						for _, e := range ph.Edges {
+							if isNilConst(e) {
+								all = false
+							}
+						}
+					}
+				}
+			}
+			if all {
+				errs[i] = j
+			}
+		}
+	}
+	return out, errs
+}
+
+func init() {
+	register(&Rule{ID: "C03.R14", Props: []string{"C03"}, Engine: "E3-nilness",
+		Title:   "on inbound paths a pointer that can be nil is tested before it is dereferenced: (a) a variable that is nil unless a loop or branch assigned it (φ with a nil input: the State-Cookie parameter searched in an INIT-ACK, an optional RECONFIG parameter …), (b) the pointer result of an in-package lookup that returns nil (with ok=false) on a miss — the peer decides whether the item is present",
+		MinInst: 10,
+		Run: func(c *RuleCtx) {
+			ks := keyer{}
+			region := c.P.TransitiveCallees(c.Fn("Association.handleInbound"))
+			region[c.Fn("Association.handleInbound")] = true
+			check := func(fn *ssa.Function, v ssa.Value, okVal ssa.Value, what string, errVal ...ssa.Value) {
+				bad := ""
+				for _, u := range derefUses(v) {
+					if len(errVal) == 1 && errVal[0] != nil && DominatedByExt(u, CmpCond(token.EQL, IsValue(errVal[0]), isNilConst)) {
+						continue
+					}
+					if nilGuarded(u, v, okVal) || DominatedByExt(u, CmpCond(token.NEQ, IsValue(v), isNilConst)) {
+						continue
+					}
+					if okVal != nil && DominatedByExt(u, BoolCond(IsValue(okVal), true)) {
+						continue
+					}
+					bad = c.Pos(u)
+				}
+				// handed to an in-package callee that dereferences the parameter without a test
+				if v.Referrers() != nil {
+					for _, r := range *v.Referrers() {
+						ci, isCall := r.(ssa.CallInstruction)
+						if !isCall {
+							continue
+						}
+						sc := ci.Common().StaticCallee()
+						if sc == nil || !c.P.inPkg(sc) {
+							continue
+						}
+						if nilGuarded(r, v, okVal) || DominatedByExt(r, CmpCond(token.NEQ, IsValue(v), isNilConst)) ||
+							(okVal != nil && DominatedByExt(r, BoolCond(IsValue(okVal), true))) ||
+							(len(errVal) == 1 && errVal[0] != nil && DominatedByExt(r, CmpCond(token.EQL, IsValue(errVal[0]), isNilConst))) {
+							continue
+						}
+						for i, a := range ci.Common().Args {
+							if a == v {
+								if isBad, where := c.paramDerefUnguarded(sc, i, 0); isBad {
+									bad = c.P.InstrPos(where) + " (inside " + c.P.FuncName(sc) + ")"
+								}
+							}
+						}
+					}
+				}
+				c.Check(bad == "", ks.key("nil-checked:"+what+"@"+c.P.FuncName(fn)), c.P.Pos(v.Pos()), "every dereference is dominated by a nil (or ok) test", what+" may be nil and is dereferenced at "+bad+" without a test: a crafted packet crashes the read loop")
+			}
+			for _, fn := range c.P.Funcs {
+				if !region[fn] {
+					continue
+				}
+				forEachInstr(fn, func(in ssa.Instruction) {
+					switch x := in.(type) {
+					case *ssa.Phi:
+						if _, isPtr := x.Type().Underlying().(*types.Pointer); !isPtr {
+							return
+						}
+						hasNil := false
+						for _, e := range x.Edges {
+							if isNilConst(e) {
+								hasNil = true
+							}
+						}
+						if hasNil && (len(derefUses(x)) > 0 || passedToPkgCallee(c.P, x)) {
+							check(fn, x, nil, "variable "+x.Comment)
+						}
+					case *ssa.Call:
+						sc := x.Call.StaticCallee()
+						if sc == nil || !c.P.inPkg(sc) {
+							return
+						}
+						nr, ne := nilReturnsE(sc)
+						if len(nr) == 0 {
+							return
+						}
+						if sc.Signature.Results().Len() == 1 {
+							if _, has := nr[0]; has && (len(derefUses(x)) > 0 || passedToPkgCallee(c.P, x)) {
+								check(fn, x, nil, "result of "+c.P.FuncName(sc))
+							}
+							return
+						}
+						var exs = map[int]ssa.Value{}
+						for _, r := range *x.Referrers() {
+							if ex, isEx := r.(*ssa.Extract); isEx {
+								exs[ex.Index] = ex
+							}
+						}
+						for i, okIdx := range nr {
+							v := exs[i]
+							if v == nil || (len(derefUses(v)) == 0 && !passedToPkgCallee(c.P, v)) {
+								continue
+							}
+							var okVal ssa.Value
+							if okIdx >= 0 {
+								okVal = exs[okIdx]
+							}
+							// an error result that is non-nil on the nil returns also guards
+							var errVal ssa.Value
+							if ne[i] >= 0 {
+								errVal = exs[ne[i]]
+							}
+							check(fn, v, okVal, "result of "+c.P.FuncName(sc), errVal)
+						}
+					}
+				})
+			}
+		}})
+}
+
+func passedToPkgCallee(p *Prog, v ssa.Value) bool {
+	if v.Referrers() == nil {
+		return false
+	}
+	for _, r := range *v.Referrers() {
+		if ci, ok := r.(ssa.CallInstruction); ok {
+			if sc := ci.Common().StaticCallee(); sc != nil && p.inPkg(sc) {
+				for _, a := range ci.Common().Args {
+					if a == v {
+						return true
+					}
+				}
+			}
+		}
+	}
+	return false
+}
+
+func init() {
+	register(&Rule{ID: "C03.R15", Props: []string{"C03"}, Engine: "E7",
+		Title:   "chunk handlers index what they received only after checking its length: every index or slice expression in the Association's handle* functions (the code that consumes decoded chunks: parameter lists, cookie bytes, stream lists) is proven in bounds from the dominating checks by the linear prover",
+		MinInst: 1,
+		Run: func(c *RuleCtx) {
+			region := map[*ssa.Function]bool{}
+			roots := map[*ssa.Function]bool{}
+			for _, fn := range c.P.Funcs {
+				n := c.P.FuncName(fn)
+				if strings.HasPrefix(n, "Association.handle") && fn.Parent() == nil {
+					region[fn] = true
+					roots[fn] = true
+				}
+			}
+			ks := keyer{}
+			for _, o := range c.P.LengthGuards(region, roots) {
+				key := ks.key("bounds:" + c.P.FuncName(o.Fn) + ":" + o.What)
+				c.Check(o.OK, key, c.Pos(o.Instr), "proven: "+o.Need.String()+" >= 0", "cannot prove "+o.What+" in bounds: need "+o.Need.String()+" >= 0 from the dominating checks (a crafted chunk panics the read loop); facts: "+o.Why)
+			}
+		}})
+}
